@@ -30,7 +30,7 @@ def bisect_model(chk):
     cfg = "BisectImpl_" + chk.tier
     d = vlib.scratch("C16-bisect")
     out = os.path.join(d, "cases.out")
-    res = vlib.tlc_ok(vlib.tlc("BisectImpl", cfg=cfg, workers=16, stdout_path=out, timeout=3000, xmx="16g"), cfg)
+    res = vlib.tlc_ok(vlib.tlc("BisectImpl", cfg=cfg, workers=16, stdout_path=out, timeout=3000, xmx="10g"), cfg)
     if res["violated"]:
         raise vlib.FrameworkError("BisectImpl violates its own invariants: %s" % res["violated"])
     chk.add_tlc(res, "tlc bisection rule (threshold split, stable when nothing overflows, boundary moves away from the overflow, larger overflow never grows, "
@@ -55,7 +55,7 @@ def run(chk):
     cfg = "DensityHier_" + chk.tier
     d = vlib.scratch("C16-emit")
     out = os.path.join(d, "cases.out")
-    res = vlib.tlc_ok(vlib.tlc("DensityHier", cfg=cfg, workers=16, coverage=True, stdout_path=out, timeout=3000, xmx="16g"), cfg)
+    res = vlib.tlc_ok(vlib.tlc("DensityHier", cfg=cfg, workers=16, coverage=True, stdout_path=out, timeout=3000, xmx="10g"), cfg)
     if res["violated"]:
         raise vlib.FrameworkError("DensityHier violates its own invariants: %s" % res["violated"])
     for act in ("RefineX", "RefineY", "CoarsenX", "CoarsenY", "Move"):
